@@ -721,7 +721,8 @@ where
             Expr::MacroExpansion {
                 ref replacement, ..
             } => self.visit_expr(replacement),
-            Expr::Annotated(..) => unimplemented!(), // FIXME
+            // The annotation is an already resolved type without spans of its own
+            Expr::Annotated(ref expr, _) => self.visit_expr(expr),
             Expr::Error(..) => (),
         }
     }
